@@ -151,6 +151,19 @@ func (vm *VM) applySend(block *nom.AccountBlock) error {
 
 	return nil
 }
+
+// applyRefund sends back the amount of a call which failed. The refund carries no call: when the caller was an embedded
+// contract there is no method of that contract to validate the block against.
+func (vm *VM) applyRefund(block *nom.AccountBlock) error {
+	if !types.IsEmbeddedAddress(block.ToAddress) {
+		return vm.applySend(block)
+	}
+	if !enoughFunds(vm.context, block) {
+		return constants.ErrInsufficientBalance
+	}
+	vm.context.SubBalance(&block.TokenStandard, block.Amount)
+	return nil
+}
 func (vm *VM) applyReceive(block *nom.AccountBlock) error {
 	fromBlock, err := vm.context.MomentumStore().GetAccountBlockByHash(block.FromBlockHash)
 	if err != nil {
@@ -182,6 +195,11 @@ func (vm *VM) generateEmbeddedReceive(fromBlockHash types.Hash) (*nom.AccountBlo
 	// can happen when a method is deleted in a spork (height 100) and someone calls it before the spork (height 95)
 	// and the autoReceive uses momentum height 105 for various reasons
 	if err == constants.ErrContractMethodNotFound {
+		// a refund from another embedded contract carries no call: the amount stays with this contract
+		if types.IsEmbeddedAddress(sendBlock.Address) && len(sendBlock.Data) == 0 {
+			vm.context.AddBalance(&sendBlock.TokenStandard, sendBlock.Amount)
+			return vm.finalizeEmbedded(fromBlockHash, nil, nil)
+		}
 		return vm.rollbackEmbedded(fromBlockHash, err)
 	}
 
@@ -225,7 +243,7 @@ func (vm *VM) rollbackEmbedded(fromBlockHash types.Hash, methodErr error) (*nom.
 			TokenStandard: sendBlock.TokenStandard,
 		}
 
-		err := vm.applySend(dBlock)
+		err := vm.applyRefund(dBlock)
 		if err != nil {
 			log.Error("Unable to apply descendant blocks for refund", "reason", err, "send-block-hash", sendBlock.Hash)
 			return nil, nil, err
